@@ -49,6 +49,7 @@ ASSUMPTIONS = ['refpeer is the client (independent message construction and '
                'client address is the wire\'s 127.0.0.1']
 
 USERS = ['alice', 'bob', 'eve']
+NOAUTH_USER = 'guest'
 PASSWORDS = {'alice': 'pa-secret', 'bob': 'pb-secret'}
 KBD = {'alice': 'ra', 'bob': 'rb'}
 _KEYS: Dict[str, RefKey] = {}
@@ -178,6 +179,10 @@ def make_server(log: List[Any], gate: Gate, optstr: str,
 
         def begin_auth(self, username):
             log.append(('begin_auth', username))
+            if username == NOAUTH_USER:
+                # the application decides that this user needs no
+                # authentication: that decision is the credential check
+                return False
             if username in ak:
                 self.conn.set_authorized_keys(
                     asyncssh.import_authorized_keys(ak[username]))
@@ -278,6 +283,13 @@ def run_history(case) -> CaseResult:
             kind = op['k']
             user = op.get('u', 'alice')
             entry = {'k': kind, 'u': user, 'valid': False, 'cred': None}
+            noauth = user == NOAUTH_USER and kind in (
+                'none', 'pw', 'pk', 'kbd', 'unknown', 'malformed')
+
+            if noauth:
+                # whatever the method: the user name is all the server looks
+                # at before begin_auth() waves the user through
+                labels.add('no-auth-user')
 
             if kind == 'none':
                 conn.auth_none(user)
@@ -392,6 +404,10 @@ def run_history(case) -> CaseResult:
                     entry['probe'] = True
                 else:
                     continue
+
+            if noauth:
+                entry['valid'] = True
+                entry['cred'] = 'noauth'
 
             if last_user is not None and user != last_user and \
                     kind not in ('release', 'probe'):
@@ -674,7 +690,8 @@ def probe_restrictions(case, log, conn: RefConn, link, history, optstr,
 
 
 def strategy(tier: str):
-    user = pick(['alice', 'alice', 'alice', 'bob', 'eve'])
+    user = pick(['alice', 'alice', 'alice', 'alice', 'bob', 'eve',
+                 NOAUTH_USER])
     pw = st.fixed_dictionaries({'k': st.just('pw'), 'u': user,
                                 'w': pick(['right', 'right', 'wrong', 'other', 'uname',
                                           'empty', 'suffix', 'upper']),
@@ -1128,7 +1145,7 @@ def race_cases(tier: str):
 FAMILIES = [
     Family('history', run_history, strategy=strategy,
            budget={'quick': 2500, 'thorough': 40000},
-           required={'all': ['authenticated', 'not-authenticated',
+           required={'all': ['authenticated', 'not-authenticated', 'no-auth-user',
                              'user-switch', 'pipelined', 'gate-out-of-order',
                              'gate-armed-mid-processing', 'lazy-key-install',
                              'restrictions-probed', 'restricted-credential',
